@@ -309,11 +309,22 @@ class PropertyRun:
         if key not in cache:
             cache[key] = self.regenerate(rep, ob.alt)
         full = cache[key]
-        for real in full.obligations:
-            if real.label == ob.label:
-                real.result = dict(ob.result)
-                return full, real
-        return full, None
+        # several obligations can share a label (the same invariant preserved along different paths of a loop body): pick the one at the
+        # same position among its namesakes, and insist on the same path trace - never a sibling
+        same = [o for o in rep.obligations if isinstance(o, LightOb) and o.alt == ob.alt and o.label == ob.label]
+        reals = [r for r in full.obligations if r.label == ob.label]
+        cand = None
+        if len(reals) == len(same) and ob in same:
+            cand = reals[same.index(ob)]
+            if list(getattr(cand, "trace", []) or []) != list(ob.trace or []):
+                cand = None
+        if cand is None:
+            match = [r for r in reals if list(getattr(r, "trace", []) or []) == list(ob.trace or [])]
+            cand = match[0] if len(match) == 1 else None
+        if cand is None:
+            return full, None
+        cand.result = dict(ob.result)
+        return full, cand
 
     def regenerate(self, rep, alt):
         """re-run VC generation for one alternative in this process (needed for replay: z3 terms do not cross processes)"""
@@ -351,7 +362,6 @@ class PropertyRun:
                 k = ob_key(lob)
                 if k in failed_keys:
                     continue
-                failed_keys.add(k)
                 if st == "undecided" and any(v.get("function") == rep.label for v in self.violations):
                     # a violation of this function's contract has already been reported: do not spend the large retry budget on its other
                     # open obligations (they are listed, not judged)
@@ -362,7 +372,11 @@ class PropertyRun:
                 if ob is None:
                     self.crashes.append(f"{lob.label}: obligation could not be regenerated in the main process")
                     continue
+                n_und, n_known = len(self.undecided), len(self.known)
                 self._judge(full, ob, k, st, findings, RP, searched)
+                if len(self.violations) > n_before or len(self.undecided) > n_und or len(self.known) > n_known:
+                    # reported once per key; an obligation that was discharged on retry does NOT speak for its namesakes on other paths
+                    failed_keys.add(k)
                 for v in self.violations[n_before:]:
                     v["function"] = rep.label
         # prover / CPython consistency.  Verification is modular: a function whose own obligations hold can still misbehave natively when a
